@@ -1,6 +1,7 @@
 import QeepProps.C03
 import QeepProps.C04
 import QeepProps.C06
+import QeepProofs.Along
 import QeepProofs.ValueOps
 /-!
 # C09 — every public call is total: a well-formed result or an error, never a panic
@@ -158,6 +159,85 @@ example : validSliceIndex [(1, 3)] [3] = true ∧ validSliceIndex [(2, 1)] [3] =
 
 example : validData 3 (NData.node [NData.node [NData.node [NData.leaf (1 : Int), .leaf 2]],
     NData.node [NData.node [NData.leaf 1, .leaf 2, .leaf 3]]]) = false := by decide
+
+end C09
+end Qeep
+
+namespace Qeep
+namespace C09
+variable {α : Type}
+
+/-- the validator's Patch rule implies the natural-number side conditions of `C06.patch_get` -/
+theorem patchOK_of_valid : ∀ (index : List IRange) (sds dds : List Nat), validPatchIndex index sds dds = true →
+    C06.PatchOK (natRanges index) sds dds
+  | [], [], [], _ => .nil
+  | [], sd :: sds, dd :: dds, h => by
+    simp only [validPatchIndex, List.length_cons, List.zip_cons_cons, List.all_cons, Bool.and_eq_true,
+      decide_eq_true_eq, beq_iff_eq] at h
+    have ih := patchOK_of_valid [] sds dds (by
+      simp only [validPatchIndex, Bool.and_eq_true, beq_iff_eq, decide_eq_true_eq]
+      refine ⟨⟨⟨by omega, h.1.1.2.2⟩, ?_⟩, ?_⟩ <;> simp [validSliceIndex])
+    exact .omit h.1.1.2.1 ih
+  | (f, t) :: rest, sd :: sds, dd :: dds, h => by
+    simp only [validPatchIndex, List.length_cons, List.zip_cons_cons, List.all_cons, Bool.and_eq_true,
+      decide_eq_true_eq, beq_iff_eq, validSliceIndex] at h
+    obtain ⟨⟨⟨hlen, hle, hles⟩, ⟨hlen2, hr, hrs⟩⟩, hc, hcs⟩ := h
+    have ih := patchOK_of_valid rest sds dds (by
+      simp only [validPatchIndex, Bool.and_eq_true, beq_iff_eq, decide_eq_true_eq, validSliceIndex]
+      exact ⟨⟨⟨by omega, hles⟩, ⟨by omega, hrs⟩⟩, hcs⟩)
+    simp only [natRanges, List.map_cons]
+    refine .cons hle ?_ ih
+    unfold validRange at hr
+    by_cases h0 : f = 0 ∧ t = 0
+    · left; simp [h0.1, h0.2]
+    · right
+      have hne : ¬ ((f == 0 && t == 0) = true) := by simpa using h0
+      simp only [hne, if_false] at hr
+      by_cases hge : f ≥ t
+      · simp [hge] at hr
+      · simp only [hge, if_false] at hr
+        have hr' : (decide (f < 0) || decide (f ≥ (dd : Int)) || decide (t < 1) || decide (t ≥ (dd : Int) + 1)) = false := by
+          cases hb : (decide (f < 0) || decide (f ≥ (dd : Int)) || decide (t < 1) || decide (t ≥ (dd : Int) + 1)) with
+          | false => rfl
+          | true => rw [hb] at hr; simp at hr
+        simp only [Bool.or_eq_false_iff, decide_eq_false_iff_not] at hr'
+        obtain ⟨⟨⟨h1, h2⟩, h3⟩, h4⟩ := hr'
+        have hcov : t - f = (sd : Int) := by
+          have hc' : ((f == 0 && t == 0) || t - f == (sd : Int)) = true := hc
+          rw [Bool.or_eq_true] at hc'
+          rcases hc' with hc' | hc'
+          · exact absurd hc' hne
+          · simpa using hc'
+        refine ⟨by omega, by omega, by omega⟩
+  | [], [], _ :: _, h => by simp [validPatchIndex] at h
+  | [], _ :: _, [], h => by simp [validPatchIndex] at h
+  | _ :: _, [], dds, h => by
+    simp only [validPatchIndex, validSliceIndex, Bool.and_eq_true, beq_iff_eq, decide_eq_true_eq] at h
+    obtain ⟨⟨⟨h1, _⟩, h2, _⟩, _⟩ := h
+    simp at h1 h2; omega
+  | _ :: _, _ :: _, [], h => by simp [validPatchIndex] at h
+
+/-- **Patch**: an index / source the validator accepts never makes the copy fail; the result has the target's dims -/
+theorem vPatch_total (t u : Tensor α) (ht : t.WF) (hu : u.WF) (index : List IRange) :
+    (validPatchIndex index u.dims t.dims = true → ∃ data, vPatch t index u = .ok ⟨t.dims, data⟩) ∧
+    (validPatchIndex index u.dims t.dims = false → vPatch t index u = .err) := by
+  constructor
+  · intro h
+    obtain ⟨data, e, _, _⟩ := C06.patch_get t u ht hu (natRanges index) (patchOK_of_valid index u.dims t.dims h)
+    exact ⟨data, by simp [vPatch, h, e, Out.ofOpt]⟩
+  · intro h; simp [vPatch, h]
+
+/-- **SumAlong … MeanAlong**: `ok` iff `0 ≤ dim < rank` (restated from `C05.along_get`) -/
+theorem vAlong_total [Scalar α] (r : Reducer) (t : Tensor α) (hwf : t.WF) (dim : Int) :
+    (validDimLt dim t.dims = true → ∃ data, vAlong r t dim = .ok ⟨squeezeDims dim.toNat t.dims, data⟩) ∧
+    (validDimLt dim t.dims = false → vAlong r t dim = .err) := by
+  constructor
+  · intro h
+    have hlt : dim.toNat < t.dims.length := by
+      simp only [validDimLt, Bool.and_eq_true, decide_eq_true_eq] at h; omega
+    obtain ⟨data', h1, _, _⟩ := reduceDim_spec t hwf dim.toNat hlt r.fn
+    exact ⟨data', by simp [vAlong, vReduceDim, h, h1, Out.ofOpt]⟩
+  · intro h; simp [vAlong, vReduceDim, h]
 
 end C09
 end Qeep
